@@ -117,8 +117,37 @@ def cdup_special(tree):
 NON_PATH_ARGS = ("offset",)
 
 
+def upload_relative(tree):
+    """the `relative = <expr>` assignments inside `Client.upload`, each with the `if` test that guards it
+    ("" = unconditional, "not <test>" for the else branch), in source order"""
+    out = []
+
+    def walk(body, guard):
+        for st in body:
+            if isinstance(st, ast.Assign) and any(isinstance(t, ast.Name) and t.id == "relative" for t in st.targets):
+                out.append((guard, ast.unparse(st.value)))
+            elif isinstance(st, ast.If):
+                t = ast.unparse(st.test)
+                walk(st.body, t if not guard else guard + " and " + t)
+                walk(st.orelse, ("not " + t) if not guard else guard + " and not " + t)
+            else:
+                for fld in ("body", "orelse", "finalbody"):
+                    sub = getattr(st, fld, None)
+                    if isinstance(sub, list) and sub and isinstance(sub[0], ast.stmt):
+                        walk(sub, guard)
+
+    for n in ast.walk(tree):
+        if isinstance(n, ast.AsyncFunctionDef) and n.name == "upload":
+            # only the loop over the children of a directory matters: guards above it (is_file / is_dir) are structural
+            for loop in ast.walk(n):
+                if isinstance(loop, ast.AsyncFor):
+                    walk(loop.body, "")
+    return out
+
+
 def gen_client():
     tree = _client_ast()
+    rel = upload_relative(tree)
     all_sites = path_cmd_sites(tree)
     # `"REST " + str(offset)` carries a number, not a path
     sites = [x[:3] for x in all_sites if x[3] not in NON_PATH_ARGS]
@@ -152,6 +181,11 @@ def gen_client():
         "",
         "/-- the built-in parsers of the chain, in order -/",
         "def listChainParsers : List String := " + lean_list((lean_str(e) for e in parsers), per_line=8),
+        "",
+        "/-- `Client.upload`: the `relative = <expr>` assignments of the loop over a directory's children,",
+        "    as (guarding test, expression) in source order; \"\" = unconditional -/",
+        "def uploadRelative : List (String × String) := "
+        + lean_list(("(%s, %s)" % (lean_str(g), lean_str(e)) for g, e in rel), per_line=1),
         "",
         "end Generated",
         "",
